@@ -171,6 +171,18 @@ def run_roundtrip(c):
             except Exception as e:
                 raise Violation("after editing (%s) write+read raised %s: %s" % (done, type(e).__name__, e), "edited-write-raised")
             compare(edited, describe(n3), t3, "after editing the loaded netlist (%s) and writing it again: " % ", ".join(done))
+            # ... and the edited design is written over the file of the first round trip (a file that was read before in this process):
+            # what is read from it now is the edited design
+            try:
+                n.write_yaml(path)
+                n3f = Netlist(path)
+            except Exception as e:
+                raise Violation("after editing (%s) write+read through the file used before raised %s: %s" % (done, type(e).__name__, e), "edited-write-raised")
+            finally:
+                if os.path.exists(path):
+                    os.unlink(path)
+            compare(edited, describe(n3f), t3, "after editing the loaded netlist (%s) and writing it over the file that was written and read before: " % ", ".join(done))
+            cls.append("file-written-again-after-it-was-read")
     for m in model["modules"]:
         if m["kind"] == "soft" and not m["area_scalar"]:
             cls.append("region-areas")
